@@ -57,7 +57,7 @@ def run_c10(ctx, fa):
     from . import mcheck
     mcheck.model_check(ctx, "MC_Binary", {"Depth": 1 if ctx.quick() else 2}, ["InvConformsEncodes", "InvStrictImplies", "InvWModeOrder", "InvNormConforms", "InvRoundTrip"], "conforms")
     rnd = ctx.sub_rnd("c10")
-    n = 900 if ctx.quick() else 12000
+    n = 1500 if ctx.quick() else 14000
     cases = []
     tries = 0
     while len(cases) < n and tries < 6 * n:
@@ -210,7 +210,7 @@ def run_c09(ctx, fa):
     from . import mcheck
     mcheck.model_check(ctx, "MC_Binary", {"Depth": 1 if ctx.quick() else 2}, ["InvChooseConforms"], "choose")
     rnd = ctx.sub_rnd("c09")
-    n = 900 if ctx.quick() else 12000
+    n = 1500 if ctx.quick() else 14000
     cases = []
     tries = 0
     while len(cases) < n and tries < 8 * n:
